@@ -134,7 +134,8 @@ Proof. intros. unfold {T}. %(sunf)s; unfold nfrac; rops. %(gen)s.
 
 # ---------------------------------------------------------------------------------------------------------
 def _scales(rng, tier):
-    k = 30 if tier == "thorough" else 10
+    """(origin scale, size scale): powers of two; a tenth of the quick cases use the extreme range too"""
+    k = 30 if (tier == "thorough" or rng.random() < 0.1) else 10
     ss = rng.randint(-k, k)
     so = ss + rng.randint(-10, 10)  # origin and size close enough in magnitude for their sum to be exact
     return 2.0 ** so, 2.0 ** ss
@@ -147,26 +148,46 @@ def _cross(a, b):
     return [a[1] * b[2] - a[2] * b[1], a[2] * b[0] - a[0] * b[2], a[0] * b[1] - a[1] * b[0]]
 
 
+def _int_vec(rng, lo=-9, hi=9):
+    return [float(rng.randint(lo, hi)) for _ in range(3)]
+
+
 def gen_cases(rng, n, tier):
     cases = []
     for _ in range(n):
         u, b = rng.random(), rng.random()
         so, ss = _scales(rng, tier)
         origin = [x * so for x in grid_vec(rng)] if rng.random() < 0.85 else [0.0, 0.0, 0.0]
+        # integer-dtype arrays (same values as a float array would hold): origin int64 with a fractional float size,
+        # both int64, integer corner points of the base triangle
+        idt = rng.random() < 0.22
         if u < 0.3:
             size = [rng.randint(1, 16) / 2 * ss for _ in range(3)]
             if b > 0.85:
                 size = [size[0]] * 3 if rng.random() < 0.5 else [ss, size[1], ss]
-            cases.append({"kind": "rect" if b <= 0.85 else "rect_boundary", "origin": origin, "size": size})
+            c = {"kind": "rect" if b <= 0.85 else "rect_boundary", "origin": origin, "size": size}
+            if idt:
+                c["origin"], c["origin_dtype"] = _int_vec(rng), "int64"
+                if rng.random() < 0.7:   # fractional sizes, small enough for the sums to be exact
+                    c["size"] = [rng.randint(1, 40) / 4 for _ in range(3)]
+                else:
+                    c["size"], c["size_dtype"] = [float(rng.randint(1, 9)) for _ in range(3)], "int64"
+                c["kind"] = "rect_intdtype"
+            cases.append(c)
         elif u < 0.5:
             if b < 0.7:
-                cases.append({"kind": "cube", "origin": origin, "size_kind": "float", "size": rng.randint(1, 16) / 2 * ss})
+                c = {"kind": "cube", "origin": origin, "size_kind": "float", "size": rng.randint(1, 16) / 2 * ss}
+                if idt:
+                    c.update(kind="cube_intdtype", origin=_int_vec(rng), origin_dtype="int64", size=rng.randint(1, 40) / 4)
+                cases.append(c)
             else:
                 cases.append({"kind": "cube_nonfloat", "origin": origin, "size_kind": rng.choice(NONFLOAT), "size": rng.randint(1, 5)})
         else:
             while True:
                 p1 = grid_vec(rng)
                 e1, e2 = grid_vec(rng), grid_vec(rng)
+                if idt:
+                    p1, e1, e2 = _int_vec(rng), _int_vec(rng, -6, 6), _int_vec(rng, -6, 6)
                 if any(_cross(e1, e2)):
                     break
             if b < 0.72:
@@ -175,10 +196,16 @@ def gen_cases(rng, n, tier):
                 kind, hk, h = "tri_nonfloat", rng.choice(NONFLOAT), rng.randint(1, 5)
             else:  # exactly collinear (outside the property; the code raises ValueError from the Plane constructor)
                 kind, hk, h = "tri_collinear", "float", rng.randint(1, 16) / 4 * ss
-                e2 = [x * rng.choice([2.0, -1.0, 0.5, 3.0]) for x in e1] if any(e1) else [0.0, 0.0, 0.0]
-            pts = [[x * ss + o for x, o in zip(p, origin)] for p in
-                   (p1, [a + c for a, c in zip(p1, e1)], [a + c for a, c in zip(p1, e2)])]
-            cases.append({"kind": kind, "points": pts, "height_kind": hk, "height": h})
+                kk = rng.choice([2.0, -1.0, 3.0])
+                e2 = [x * kk for x in e1]
+            raw = (p1, [a + c for a, c in zip(p1, e1)], [a + c for a, c in zip(p1, e2)])
+            if idt:
+                c = {"kind": kind + ("_intdtype" if kind == "tri" else ""), "points": [list(p) for p in raw], "points_dtype": "int64",
+                     "height_kind": hk, "height": h if hk != "float" else rng.randint(1, 40) / 4}
+            else:
+                pts = [[x * ss + o for x, o in zip(p, origin)] for p in raw]
+                c = {"kind": kind, "points": pts, "height_kind": hk, "height": h}
+            cases.append(c)
     return cases
 
 
@@ -187,27 +214,57 @@ def _pyval(kind, v):
             "str": lambda: str(v), "none": lambda: None}[kind]()
 
 
+def _arr(v, dtype):
+    return np.array(v, dtype=np.int64) if dtype == "int64" else np.array(v, dtype=np.float64)
+
+
+def _base(kind):
+    return kind.split("_")[0]
+
+
 def run_impl(c):
     from polliwog.shapes import cube, rectangular_prism, triangular_prism
-    kind = c["kind"].split("_")[0]
+    kind = _base(c["kind"])
     if kind == "rect":
-        args = [np.array(c["origin"]), np.array(c["size"])]
+        args = [_arr(c["origin"], c.get("origin_dtype")), _arr(c["size"], c.get("size_dtype"))]
         f = rectangular_prism
     elif kind == "cube":
-        args = [np.array(c["origin"]), _pyval(c["size_kind"], c["size"])]
+        args = [_arr(c["origin"], c.get("origin_dtype")), _pyval(c["size_kind"], c["size"])]
         f = cube
     else:
-        args = [np.array(p) for p in c["points"]] + [_pyval(c["height_kind"], c["height"])]
+        args = [_arr(p, c.get("points_dtype")) for p in c["points"]] + [_pyval(c["height_kind"], c["height"])]
         f = triangular_prism
     before = [a.copy() if isinstance(a, np.ndarray) else a for a in args]
+
+    def unchanged():
+        return all(np.array_equal(a, b) and a.dtype == b.dtype if isinstance(a, np.ndarray) else True for a, b in zip(before, args))
 
     def go():
         with np.errstate(all="ignore"):
             v, fs = f(*args, ret_unique_vertices_and_faces=True)
             flat = f(*args)
-        return {"vertices": v.tolist(), "faces": [[int(x) for x in r] for r in fs], "flat": flat.reshape(len(flat), -1).tolist(),
-                "flat_shape": list(flat.shape), "faces_dtype_kind": fs.dtype.kind,
-                "args_unchanged": all(np.array_equal(a, b) if isinstance(a, np.ndarray) else True for a, b in zip(before, args))}
+            o = {"vertices": v.tolist(), "faces": [[int(x) for x in r] for r in fs], "flat": flat.reshape(len(flat), -1).tolist(),
+                 "flat_shape": list(flat.shape), "faces_dtype_kind": fs.dtype.kind, "vertices_dtype_kind": v.dtype.kind,
+                 "flat_dtype_kind": flat.dtype.kind, "args_unchanged": unchanged()}
+            # the caller now edits what it was given (appending the solid to a bigger mesh, flipping the winding, moving
+            # it) and asks again: the second answer must be the first one, and the arguments must still be untouched
+            v0, f0, flat0 = v.copy(), fs.copy(), flat.copy()
+            fs += 8
+            fs[:] = fs[:, ::-1]
+            v *= -3
+            v += 1
+            flat[...] = 7
+            try:
+                v2, fs2 = f(*args, ret_unique_vertices_and_faces=True)
+                flat2 = f(*args)
+            except Exception as e:  # noqa
+                o.update(repeat_same=False, repeat={"raise": "%s: %s" % (type(e).__name__, e)}, args_unchanged_after_edit=unchanged())
+                return o
+            o["repeat_same"] = bool(np.array_equal(v2, v0) and np.array_equal(fs2, f0) and np.array_equal(flat2, flat0)
+                                    and v2.dtype == v0.dtype and fs2.dtype == f0.dtype)
+            o["repeat"] = {"vertices": v2.tolist(), "faces": fs2.tolist(), "flat_equal": bool(np.array_equal(flat2, flat0))}
+            o["args_unchanged_after_edit"] = unchanged()
+        return o
 
     return call_impl(go)
 
@@ -227,7 +284,7 @@ def coq_case(c, o):
         obs = "(Ok (%s, %s, %s))" % (coq_list("[%s]" % "; ".join(fl(x) for x in r) for r in o["vertices"]),
                                      coq_list(coq_list(coq_nat(x) for x in r) for r in o["faces"]),
                                      coq_list("[%s]" % "; ".join(fl(x) for x in r) for r in o["flat"]))
-    kind = c["kind"].split("_")[0]
+    kind = _base(c["kind"])
     if kind == "rect":
         return "CRect %s %s %s" % (qv(c["origin"]), qv(c["size"]), obs)
     if kind == "cube":
@@ -278,7 +335,7 @@ def _measures(verts, faces):
 
 
 def oracle(c, o):
-    kind = c["kind"].split("_")[0]
+    kind = _base(c["kind"])
     nonfloat = c["kind"] in ("cube_nonfloat", "tri_nonfloat")
     if nonfloat:
         if "raise" not in o:
@@ -292,6 +349,15 @@ def oracle(c, o):
         return "unexpected exception %s: %s" % (o["raise"], o.get("msg"))
     if not o["args_unchanged"]:
         return "argument array was modified"
+    if not o["args_unchanged_after_edit"]:
+        return "editing the returned arrays changed the caller's argument arrays (the result aliases its input)"
+    if not o["repeat_same"]:
+        if "raise" in o["repeat"]:
+            return "after the returned arrays were edited in place, the same call raised %s" % o["repeat"]["raise"]
+        return ("after the returned arrays were edited in place, the same call returned something else: faces %r, vertices %r"
+                % (o["repeat"]["faces"][:3], o["repeat"]["vertices"][:2]))
+    if o["faces_dtype_kind"] not in "iu":
+        return "faces have non-integer dtype kind %r" % o["faces_dtype_kind"]
     verts = [_F(v) for v in o["vertices"]]
     faces = o["faces"]
     nv, nf = (8, 12) if kind in ("rect", "cube") else (6, 8)
